@@ -59,6 +59,16 @@ def check(repo: Repo, rep: Report) -> None:
     rep.rule("Y2-range", "range_ forwards its arguments to range() and steps its iterator", floor=5)
     rep.rule("Y3-generate", "generate_*: first-step skip, accepted state emitted, completion on rejection, delay not truth-tested", floor=8)
     rep.rule("Y4-delegation", "timer tick counting; repeat_value / interval delegations", floor=4)
+    from .typestate_common import rule_scheduler_forwarded
+    from ..model import model_of
+    rep.rule("Y5-scheduler-choice", "source factories: the explicitly given scheduler wins over the subscribe-time one, which wins over the default", floor=5)
+    m_ = model_of(repo)
+    for rel_ in ("returnvalue.py", "empty.py", "throw.py", "timer.py", "range.py", "fromiterable.py", "generate.py", "generatewithrelativetime.py", "repeat.py", "interval.py"):
+        mod_ = repo.opt_module(O + rel_)
+        if mod_ is not None:
+            for g_ in mod_.root.walk():
+                if g_.is_func and m_.role.get(g_) == "subscribe":
+                    rule_scheduler_forwarded(rep, "Y5-scheduler-choice", g_)
     typestate(rep, repo.fn(O + "returnvalue.py", "return_value_.subscribe.action"), "observer", ["NEXT", "COMPL"], None, "return_value")
     typestate(rep, repo.fn(O + "returnvalue.py", "from_callable_.subscribe.action"), "observer", ["NEXT", "COMPL"], ["ERR"], "from_callable")
     typestate(rep, repo.fn(O + "empty.py", "empty_.subscribe.action"), "observer", ["COMPL"], None, "empty")
